@@ -56,6 +56,7 @@ type zzNode struct {
 	retKind  int   // oReturn leaf: 0 `return v`, 1 bare `return` (nil), 2 `return v, w` (a list)
 	defPos   int   // switch with default: number of cases written before the default clause
 	multi    bool  // switch: every case lists two expressions, the second one is the candidate
+	shadow   bool  // leaf directly inside a block with a scope of its own: it also re-binds the condition probe there
 }
 
 type zzGen struct {
@@ -167,6 +168,17 @@ func (g *zzGen) gen(depth int, inLoop bool) *zzNode {
 		g.stray = false
 	case nModule:
 		n.kids = []*zzNode{g.gen(depth-1, inLoop)}
+	}
+	if k == nIf || k == nSwitch || k == nTry {
+		// the branch, case and try / catch blocks have a scope of their own: a
+		// `var c = cshadow` there must be gone when the block is left, however it
+		// is left; if the scope leaks, later conditions call the shadow and the
+		// probe trace shows it
+		for _, kid := range n.kids {
+			if kid.k == nLeaf {
+				kid.shadow = true
+			}
+		}
 	}
 	return n
 }
@@ -366,8 +378,12 @@ func (b *zzBuilder) build(n *zzNode) ast.Stmt {
 	case nLeaf:
 		p := &ast.ExprStmt{Expr: zzProbeCall("p", n.tag)}
 		var s ast.Stmt
+		sh := &ast.VarStmt{Names: []string{"c"}, Exprs: []ast.Expr{zzIdent("cshadow")}}
 		switch n.out {
 		case oNormal:
+			if n.shadow {
+				return &ast.StmtsStmt{Stmts: []ast.Stmt{p, sh}}
+			}
 			return p
 		case oBreak:
 			s = &ast.BreakStmt{}
@@ -386,6 +402,9 @@ func (b *zzBuilder) build(n *zzNode) ast.Stmt {
 			s = &ast.ExprStmt{Expr: zzBad()}
 		case oThrow:
 			s = &ast.ThrowStmt{Expr: zzLit("thrown")}
+		}
+		if n.shadow {
+			return &ast.StmtsStmt{Stmts: []ast.Stmt{&ast.ExprStmt{Expr: zzProbeCall("q", n.tag)}, sh, s}}
 		}
 		return &ast.StmtsStmt{Stmts: []ast.Stmt{&ast.ExprStmt{Expr: zzProbeCall("q", n.tag)}, s}}
 	case nSeq:
@@ -491,6 +510,7 @@ func zzControlEnv(b *zzBuilder) *env.Env {
 	e.Define("p", func(tag int64) int64 { zz.Probe(int(tag)); return tag })
 	e.Define("q", func(tag int64) int64 { zz.Probe(int(tag)); return tag })
 	e.Define("pfail", func(tag int64) int64 { zz.Probe(int(tag)); panic("zz deferred failure") })
+	e.Define("cshadow", func(tag int64) bool { zz.Probe(int(tag) + 100000); return false })
 	e.Define("c", func(tag int64) bool {
 		zz.Probe(int(tag))
 		k := b.evals[int(tag)]
@@ -625,25 +645,29 @@ func zzRender(n *zzNode, ind string) string {
 	switch n.k {
 	case nLeaf:
 		t := zzItoa(n.tag)
+		sh := ""
+		if n.shadow {
+			sh = ind + "var c = cshadow\n"
+		}
 		switch n.out {
 		case oNormal:
-			return ind + "p(" + t + ")\n"
+			return ind + "p(" + t + ")\n" + sh
 		case oBreak:
-			return ind + "q(" + t + ")\n" + ind + "break\n"
+			return ind + "q(" + t + ")\n" + sh + ind + "break\n"
 		case oContinue:
-			return ind + "q(" + t + ")\n" + ind + "continue\n"
+			return ind + "q(" + t + ")\n" + sh + ind + "continue\n"
 		case oReturn:
 			switch n.retKind {
 			case 1:
-				return ind + "q(" + t + ")\n" + ind + "return\n"
+				return ind + "q(" + t + ")\n" + sh + ind + "return\n"
 			case 2:
-				return ind + "q(" + t + ")\n" + ind + "return " + zzItoa(1000+n.tag) + ", " + zzItoa(2000+n.tag) + "\n"
+				return ind + "q(" + t + ")\n" + sh + ind + "return " + zzItoa(1000+n.tag) + ", " + zzItoa(2000+n.tag) + "\n"
 			}
-			return ind + "q(" + t + ")\n" + ind + "return " + zzItoa(1000+n.tag) + "\n"
+			return ind + "q(" + t + ")\n" + sh + ind + "return " + zzItoa(1000+n.tag) + "\n"
 		case oError:
-			return ind + "q(" + t + ")\n" + ind + "zz_undefined\n"
+			return ind + "q(" + t + ")\n" + sh + ind + "zz_undefined\n"
 		case oThrow:
-			return ind + "q(" + t + ")\n" + ind + "throw \"thrown\"\n"
+			return ind + "q(" + t + ")\n" + sh + ind + "throw \"thrown\"\n"
 		}
 	case nSeq:
 		out := ""
